@@ -127,6 +127,14 @@ def run(ctx):
     R8 = rs.rand(8, 12)
     for (m, n), exp in (((2, 3), 'accept'), ((3, 2), 'reject'), ((2, 2), 'reject'), ((1, 3), 'reject')):
         add('real_contract', f'R 8x12, m={m}, n={n}', (lambda m=m, n=n: utils.real_contract(R8, m, n)), D('(mkarr true DReal 2 8 12 0)', n1=m, n2=n), exp)
+    # surplus or missing rows / columns that are not a whole 4 x 4 block (every size in a window around (4m, 4n))
+    for (m, n) in ((2, 3), (1, 1), (1, 2), (3, 1)):
+        for dr in (-4, -1, 0, 1, 2, 3, 4):
+            for dc in (-4, -1, 0, 1, 3, 4):
+                rr, cc = 4 * m + dr, 4 * n + dc
+                if rr < 0 or cc < 0 or (dr, dc) == (0, 0) and (m, n) == (2, 3): continue
+                Rx = rs.rand(rr, cc)
+                add('real_contract', f'R {rr}x{cc}, m={m}, n={n}', (lambda Rx=Rx, m=m, n=n: utils.real_contract(Rx, m, n)), D(f'(mkarr true DReal 2 {rr} {cc} 0)', n1=m, n2=n), 'accept' if (dr, dc) == (0, 0) else 'reject')
     def utri(nr, nb, k=1):
         R = [np.triu(rs.randint(1, 4, size=(nr, nr)).astype(float)) + np.eye(nr) for _ in range(4)]
         b = [rs.randint(-2, 3, size=(nb, k)).astype(float) for _ in range(4)]
